@@ -88,99 +88,174 @@ def slot_cleanup():
             os.close(fd)
 
 
-# ----------------------------------------------------------------------------- kani invocation
-CHECK_RE = re.compile(r"^Check (\d+): (.+)\n\t - Status: (\w+)\n\t - Description: \"(.*)\"\n\t - Location: (.*)$", re.M)
+# ----------------------------------------------------------------------------- kani codegen + direct CBMC
+# Kani is used as the compiler (real source -> goto program per harness, `--only-codegen`); the goto programs are then
+# linked, instrumented and solved with the same goto-cc / goto-instrument / cbmc command lines kani-driver uses (printed by
+# `cargo kani --verbose`), but with CBMC's plain-text result listing instead of `--json-ui` (kani-driver's JSON mode emits a
+# full trace per satisfied cover / reachability check: >1 GB and 3x the wall-clock on the Core harnesses).
+KANI_HOME = os.path.expanduser("~/.kani/kani-0.68.0")
+CBMC_FLAGS = ["--no-malloc-may-fail", "--no-undefined-shift-check", "--no-signed-overflow-check", "--no-bounds-check",
+              "--no-pointer-check", "--nan-check", "--no-self-loops-to-assumptions", "--no-pointer-primitive-check",
+              "--object-bits", "16", "--sat-solver", "cadical", "--slice-formula", "--verbosity", "8", "--max-field-sensitivity-array-size", "256"]
+PROP_RE = re.compile(r"^\[(.+)\.([A-Za-z_-]+)\.(\d+)\] line (\d+) (.*): (SUCCESS|FAILURE|UNKNOWN|ERROR)$")
+HDR_RE = re.compile(r"^(\S.*) function (.+)$")
 
 
-def kani_cmd(h, extra=()):
-    pkg = h.get("pkg") or PKG_OF_PROFILE.get(h["profile"], "consensus")
-    cmd = ["cargo", "kani", "-p", pkg, "-Z", "unstable-options", "--no-memory-safety-checks", "--harness", h["name"], "--exact"]
+def pkg_of(h):
+    return h.get("pkg") or PKG_OF_PROFILE.get(h["profile"], "consensus")
+
+
+def group_key(h):
+    return (h["profile"], h.get("features", ""), pkg_of(h), bool(h.get("stubbing")))
+
+
+def kani_cmd(h, extra=(), names=None):
+    cmd = ["cargo", "kani", "-p", pkg_of(h), "-Z", "unstable-options", "--no-memory-safety-checks"]
+    for n in (names or [h["name"]]):
+        cmd += ["--harness", n]
+    cmd += ["--exact"]
     if h.get("features"):
         cmd += ["--features", h["features"]]
     if h.get("stubbing"):
         cmd += ["-Z", "stubbing"]
     cmd += list(extra)
-    cb = list(h.get("cbmc_args", []))
-    if cb:
-        cmd += ["--cbmc-args"] + cb
     return cmd
 
 
-def full_name(h):
-    return h["path"] + "::" + h["name"] if h.get("path") else h["name"]
-
-
-def parse_kani(text):
-    res = {"checks": 0, "failed": [], "covers": [], "undetermined": 0, "functions": set()}
-    for m in CHECK_RE.finditer(text):
-        _, name, status, desc, loc = m.groups()
-        if ".cover." in name or status in ("SATISFIED", "UNSATISFIABLE"):
-            res["covers"].append({"name": name, "status": status, "desc": desc, "loc": loc})
-            continue
-        res["checks"] += 1
-        if status == "FAILURE":
-            res["failed"].append({"name": name, "desc": desc, "loc": loc})
-        elif status in ("UNDETERMINED", "ERROR"):
-            res["undetermined"] += 1
-        fm = re.search(r"^(\S+?):\d+:\d+ in function (.+)$", loc)
-        if fm and FIRST_PARTY.search(fm.group(1)) and "kani_" not in fm.group(2):
-            res["functions"].add(fm.group(2))
-    m = re.search(r"\*\* (\d+) of (\d+) failed", text)
-    res["summary"] = (int(m.group(1)), int(m.group(2))) if m else None
-    m = re.search(r"\*\* (\d+) of (\d+) cover properties satisfied", text)
-    res["cover_summary"] = (int(m.group(1)), int(m.group(2))) if m else None
-    m = re.search(r"Verification Time: ([\d.]+)s", text)
-    res["solver_s"] = float(m.group(1)) if m else None
-    res["successful"] = "VERIFICATION:- SUCCESSFUL" in text
-    res["failed_verdict"] = "VERIFICATION:- FAILED" in text
-    res["functions"] = sorted(res["functions"])
-    return res
-
-
-def run_kani(h, ovdir, rundir, extra=(), tag=""):
-    """Run one harness in its own slot. Returns (status, parsed, logpath, wall)."""
-    key = h["profile"] + ("-" + h["features"] if h.get("features") else "")
-    t0 = time.time()
+def codegen(hs, ovdir, rundir):
+    """Compile one group of harnesses with Kani (--only-codegen). Returns {fq_name: (symtab_path_copy, unwind)} or raises."""
+    h0 = hs[0]
+    key = "%s%s" % (h0["profile"], ("-" + h0["features"]) if h0.get("features") else "")
+    out = {}
     with Slot(key) as slot:
         ws = os.path.join(slot.dir, "ws")
         sh(["rsync", "-a", "--delete", ovdir + "/", ws + "/"])
         env = dict(os.environ)
         env.update(CARGO_NET_OFFLINE="true", CARGO_TARGET_DIR=os.path.join(slot.dir, "target"))
         env.pop("RUSTFLAGS", None)
-        timeout = int(h.get("timeout", 600) * float(os.environ.get("VERIF_TIME_SCALE", "1")))
-        mem_kb = int(h.get("mem_gb", 12) * 1024 * 1024)
-        cmd = kani_cmd(h, extra)
-        line = "ulimit -v %d; exec timeout -k 10 %d %s" % (mem_kb, timeout, " ".join("'%s'" % c for c in cmd))
-        logp = os.path.join(rundir, "logs", "%s%s.log" % (h["name"], tag))
+        cmd = kani_cmd(h0, ["--only-codegen"], names=[h["name"] for h in hs])
+        logp = os.path.join(rundir, "logs", "codegen-%s-%s.log" % (key, pkg_of(h0)))
         os.makedirs(os.path.dirname(logp), exist_ok=True)
         with open(logp, "w") as lf:
+            p = subprocess.run(["timeout", "-k", "10", "1800"] + cmd, cwd=ws, env=env, stdout=lf, stderr=subprocess.STDOUT)
+        if p.returncode != 0:
+            raise RuntimeError("codegen failed (see %s):\n%s" % (logp, "\n".join(
+                l for l in open(logp, errors="replace").read().split("\n") if l.startswith("error"))[:3000]))
+        metas = []
+        for root, _, files in os.walk(os.path.join(slot.dir, "target", "kani")):
+            for f in files:
+                if f.endswith(".kani-metadata.json"):
+                    metas.append(os.path.join(root, f))
+        metas.sort(key=os.path.getmtime)
+        for m in metas:
+            for ph in json.load(open(m)).get("proof_harnesses", []):
+                g = ph.get("goto_file")
+                if g and os.path.exists(g):
+                    out[ph["pretty_name"]] = (g, ph["attributes"].get("unwind_value"), ph["mangled_name"])
+        res = {}
+        gd = os.path.join(rundir, "goto")
+        os.makedirs(gd, exist_ok=True)
+        for h in hs:
+            if h["name"] not in out:
+                raise RuntimeError("harness %s not produced by codegen (see %s)" % (h["name"], logp))
+            g, unwind, mangled = out[h["name"]]
+            dst = os.path.join(gd, h["short"] + ".symtab.out")
+            shutil.copy(g, dst)
+            res[h["name"]] = (dst, (unwind, mangled))
+        return res
+
+
+def parse_cbmc(text):
+    res = {"checks": 0, "failed": [], "covers": [], "undetermined": 0, "functions": set(), "reach_fail": 0}
+    cur_file = cur_fn = ""
+    for line in text.split("\n"):
+        m = PROP_RE.match(line)
+        if not m:
+            hm = HDR_RE.match(line)
+            if hm and not line.startswith("["):
+                cur_file, cur_fn = hm.group(1), hm.group(2)
+            continue
+        name, cls, _, ln, desc, status = m.groups()
+        desc = re.sub(r"^\[?KANI_CHECK_ID_[^\]\s]*\]? ?", "", desc)
+        loc = "%s:%s in function %s" % (cur_file, ln, cur_fn)
+        if cls == "reachability_check":
+            if status == "FAILURE":
+                res["reach_fail"] += 1
+            continue
+        if cls == "cover":
+            st = {"FAILURE": "SATISFIED", "SUCCESS": "UNSATISFIABLE"}.get(status, status)
+            res["covers"].append({"name": name, "status": st, "desc": desc.replace("cover condition: ", ""), "loc": loc})
+            continue
+        res["checks"] += 1
+        if status == "FAILURE":
+            res["failed"].append({"name": "%s.%s" % (name, cls), "desc": desc, "loc": loc})
+        elif status != "SUCCESS":
+            res["undetermined"] += 1
+        if FIRST_PARTY.search(cur_file) and "kani_" not in cur_fn and "_harness" not in cur_file:
+            res["functions"].add(cur_fn)
+    res["done"] = bool(re.search(r"^VERIFICATION (SUCCESSFUL|FAILED)$", text, re.M))
+    m = re.search(r"Runtime Symex: ([\d.]+)s", text)
+    res["symex_s"] = float(m.group(1)) if m else None
+    res["solver_s"] = round(sum(float(x) for x in re.findall(r"Runtime decision procedure: ([\d.]+)s", text)), 2)
+    m = re.search(r"(\d+) variables, (\d+) clauses", text)
+    res["sat_vars"], res["sat_clauses"] = (int(m.group(1)), int(m.group(2))) if m else (None, None)
+    m = re.search(r"Generated (\d+) VCC\(s\), (\d+) remaining", text)
+    res["vccs"] = int(m.group(2)) if m else None
+    res["functions"] = sorted(res["functions"])
+    return res
+
+
+def solve(h, symtab, unwind_mangled, rundir):
+    """goto-cc + goto-instrument + cbmc on one harness. Returns (status, parsed, logpath, wall)."""
+    t0 = time.time()
+    unwind, mangled = unwind_mangled
+    out = os.path.join(rundir, "goto", h["short"] + ".out")
+    logp = os.path.join(rundir, "logs", h["short"] + ".log")
+    timeout = int(h.get("timeout", 600) * float(os.environ.get("VERIF_TIME_SCALE", "1")))
+    mem_kb = int(h.get("mem_gb", 12) * 1024 * 1024)
+    steps = [
+        ["goto-cc", symtab, os.path.join(KANI_HOME, "library/kani/kani_lib.c"), "-o", out],
+        ["goto-cc", out, "--function", mangled, "-o", out],
+        ["goto-instrument", "--add-library", "--no-malloc-may-fail", out, out],
+        ["goto-instrument", "--generate-function-body-options", "assert-false-assume-false", "--generate-function-body", ".*",
+         "--drop-unused-functions", out, out],
+        ["goto-instrument", "--ensure-one-backedge-per-target", out, out],
+    ]
+    cb = ["cbmc"] + CBMC_FLAGS + (["--unwind", str(h.get("unwind") or unwind)] if (h.get("unwind") or unwind) else []) + \
+        list(h.get("cbmc_args", [])) + [out]
+    with open(logp, "w") as lf:
+        rc = 0
+        for st in steps:
+            lf.write("$ " + " ".join(st) + "\n")
+            lf.flush()
+            rc = subprocess.run(st, stdout=lf, stderr=subprocess.STDOUT).returncode
+            if rc != 0:
+                break
+        if rc == 0:
+            line = "ulimit -v %d; exec timeout -k 10 %d %s" % (mem_kb, timeout, " ".join("'%s'" % c for c in cb))
             lf.write("$ " + line + "\n")
             lf.flush()
-            p = subprocess.run(["bash", "-c", line], cwd=ws, env=env, stdout=lf, stderr=subprocess.STDOUT)
-        text = open(logp, errors="replace").read()
-        parsed = parse_kani(text)
-        wall = time.time() - t0
-        if p.returncode in (124, 137):
-            st = "TIMEOUT"
-        elif parsed["successful"]:
-            cs = parsed["cover_summary"]
-            unsat = [c for c in parsed["covers"] if c["status"] != "SATISFIED"]
-            st = "VACUOUS" if (unsat or (cs and cs[0] != cs[1])) else "PASS"
-            if h.get("need_cover", True) and not parsed["covers"]:
-                st = "VACUOUS"
-        elif parsed["failed_verdict"]:
-            if any("unwinding assertion" in f["desc"] for f in parsed["failed"]):
-                st = "UNWIND"
-            elif not parsed["failed"]:
-                st = "ERROR"  # out of memory / solver error: "0 of N failed" but FAILED verdict
-            else:
-                st = "FAIL"
-        elif re.search(r"^error(\[E\d+\])?:", text, re.M) or "could not compile" in text:
-            st = "BUILD"
-        else:
-            st = "ERROR"
-        parsed["ws"] = ws
-        return st, parsed, logp, wall, slot.dir
+            rc = subprocess.run(["bash", "-c", line], stdout=lf, stderr=subprocess.STDOUT).returncode
+    text = open(logp, errors="replace").read()
+    parsed = parse_cbmc(text)
+    wall = time.time() - t0
+    real_fail = [f for f in parsed["failed"]]
+    if rc in (124, 137):
+        st = "TIMEOUT"
+    elif not parsed["done"]:
+        st = "ERROR"  # out of memory, solver abort, instrumentation failure
+    elif parsed["undetermined"]:
+        st = "ERROR"
+    elif real_fail:
+        st = "UNWIND" if any("unwinding assertion" in f["desc"] for f in real_fail) else "FAIL"
+    else:
+        unsat = [c for c in parsed["covers"] if c["status"] != "SATISFIED"]
+        st = "VACUOUS" if unsat or (h.get("need_cover", True) and not parsed["covers"]) else "PASS"
+    try:
+        os.remove(out)
+    except OSError:
+        pass
+    return st, parsed, logp, wall
 
 
 PLAYBACK_TEST_RE = re.compile(r"fn (kani_concrete_playback_\w+)")
@@ -260,7 +335,7 @@ def run_property(pid, spec, tier, seed, only=None, jobs=0):
     hs = [dict(h) for h in spec.get("harnesses", []) if tier == "thorough" or h.get("tier", "quick") == "quick"]
     if only:
         names = set(only.split(","))
-        hs = [h for h in hs if h["name"] in names]
+        hs = [h for h in hs if h.get("short", h["name"]) in names]
     known = load_known()
     results, overlays, reports = [], {}, {}
     inconclusive, violations, known_hits = [], [], []
@@ -274,19 +349,49 @@ def run_property(pid, spec, tier, seed, only=None, jobs=0):
         jobs = jobs or max(1, min(len(hs), int(os.environ.get("VERIF_PAR", str(max(2, NCPU // 2))))))
         lock = threading.Lock()
 
+        # compile once per (profile, features, package), then solve every harness in parallel
+        compiled, build_failed = {}, set()
+        groups = {}
+        for h in hs:
+            groups.setdefault(group_key(h), []).append(h)
+
+        def build(item):
+            gk, ghs = item
+            if gk[0] not in overlays:
+                return gk, None, "no overlay"
+            try:
+                return gk, codegen(ghs, overlays[gk[0]], rundir), None
+            except Exception as e:  # noqa
+                return gk, None, str(e)
+
+        tb = time.time()
+        with cf.ThreadPoolExecutor(max_workers=max(1, len(groups))) as ex:
+            for gk, res, err in ex.map(build, groups.items()):
+                if err:
+                    log("INCONCLUSIVE codegen %s: %s" % ("/".join(str(x) for x in gk), err))
+                    build_failed.add(gk)
+                else:
+                    compiled.update(res)
+        if groups:
+            log("  [%s] codegen of %d harness(es) in %d group(s): %.0fs" % (pid, len(hs), len(groups), time.time() - tb))
+
         def work(h):
-            if h["profile"] not in overlays:
+            if h["name"] not in compiled:
                 return h, "BUILD", {"failed": [], "covers": [], "checks": 0, "functions": []}, "", 0.0
-            st, parsed, logp, wall, _ = run_kani(h, overlays[h["profile"]], rundir)
+            symtab, unwind = compiled[h["name"]]
+            st, parsed, logp, wall = solve(h, symtab, unwind, rundir)
             with lock:
-                log("  [%s] %-34s %-8s %6.1fs  checks=%d failed=%d covers=%s" % (
-                    pid, h["name"], st, wall, parsed["checks"], len(parsed["failed"]),
-                    "%d/%d" % (len([c for c in parsed["covers"] if c["status"] == "SATISFIED"]), len(parsed["covers"]))))
+                log("  [%s] %-34s %-8s %6.1fs  checks=%d failed=%d covers=%s vars=%s" % (
+                    pid, h.get("short", h["name"]), st, wall, parsed["checks"], len(parsed["failed"]),
+                    "%d/%d" % (len([c for c in parsed["covers"] if c["status"] == "SATISFIED"]), len(parsed["covers"])),
+                    parsed.get("sat_vars")))
             return h, st, parsed, logp, wall
 
         if hs:
+            # longest first
+            order = sorted(hs, key=lambda h: -h.get("cost", 1))
             with cf.ThreadPoolExecutor(max_workers=jobs) as ex:
-                results = list(ex.map(work, hs))
+                results = list(ex.map(work, order))
 
         # ---- other solver engines (z3 / cvc5 encodings)
         engine_results = []
@@ -312,8 +417,9 @@ def run_property(pid, spec, tier, seed, only=None, jobs=0):
             obligations += parsed["checks"] + len(parsed["covers"])
             solver_s += parsed.get("solver_s") or 0.0
             functions.update(parsed["functions"])
-            sample = {"harness": h["name"], "profile": h["profile"], "status": st, "wall_s": round(wall, 1),
-                      "solver_s": parsed.get("solver_s"), "symbolic": h.get("symbolic", ""), "bounds": h.get("bounds", ""),
+            sample = {"harness": h.get("short", h["name"]), "fq_name": h["name"], "profile": h["profile"], "status": st, "wall_s": round(wall, 1),
+                      "solver_s": parsed.get("solver_s"), "symex_s": parsed.get("symex_s"), "sat_vars": parsed.get("sat_vars"),
+                      "sat_clauses": parsed.get("sat_clauses"), "vccs_after_simplification": parsed.get("vccs"), "symbolic": h.get("symbolic", ""), "bounds": h.get("bounds", ""),
                       "asserts": h.get("asserts", ""), "checks": parsed["checks"],
                       "covers": ["%s: %s" % (c["desc"], c["status"]) for c in parsed["covers"]]}
             if st == "PASS":
@@ -377,7 +483,7 @@ def run_property(pid, spec, tier, seed, only=None, jobs=0):
                             "SMT query); non-trivial = verdict obtained with >=1 reachable assertion AND every kani::cover! vacuity "
                             "witness SATISFIED; distinct = distinct harness/query names",
                     "obligations": obligations, "discharged": discharged,
-                    "checker_cmd": "cargo kani (0.68, CBMC 6.11, cadical) -Z unstable-options --no-memory-safety-checks --harness <h> --exact; unwinding assertions on",
+                    "checker_cmd": "cargo kani 0.68 --only-codegen (real source -> goto program per harness); goto-cc + goto-instrument (kani-driver's passes); cbmc 6.11 " + " ".join(CBMC_FLAGS) + " --unwind <harness bound> (unwinding assertions on by default in CBMC 6)",
                     "trusted_base": spec.get("trusted_base", []),
                     "functions_encoded": sorted(functions),
                     "bounds": spec.get("bounds", ""), "outside_bounds": spec.get("outside", ""),
@@ -426,7 +532,9 @@ def replay_saved(pid, path):
     os.makedirs(rundir, exist_ok=True)
     try:
         ov, _ = build_overlay(h["profile"], rundir)
-        st, parsed, logp, wall, _ = run_kani(h, ov, rundir)
+        comp = codegen([h], ov, rundir)
+        symtab, unwind = comp[h["name"]]
+        st, parsed, logp, wall = solve(h, symtab, unwind, rundir)
         if st != "FAIL":
             log("replay: harness %s now %s" % (h["name"], st))
             return 0 if st == "PASS" else 2
